@@ -27,6 +27,7 @@ func main() {
 	outDir := flag.String("outdir", "", "directory for evidence/ and replays/ (default: the verif directory)")
 	fileFilter := flag.String("file", "", "with -all: only functions declared in these source files (comma list of base names, or dir/ for a package directory)")
 	failFast := flag.Bool("failfast", false, "with -all: stop at the first failed obligation")
+	dumpNames := flag.Bool("dump-names", false, "write the baseline names of all functions to <verif>/names.json")
 	witness := flag.String("witness", "", "run only the witness-search driver of a property against the real code (no proof)")
 	flag.Parse()
 	if *witness != "" {
@@ -58,6 +59,13 @@ func main() {
 		os.Exit(2)
 	}
 	p.loadSecs = time.Since(t0).Seconds()
+	if *dumpNames {
+		if err := p.dumpNames(*verifDir + "/names.json"); err != nil {
+			fmt.Fprintln(os.Stderr, "govc:", err)
+			os.Exit(2)
+		}
+		return
+	}
 	if *list {
 		var ks []string
 		for k := range p.funcs {
@@ -160,10 +168,26 @@ func main() {
 			}
 		}
 		fmt.Printf("== %s: %d/%d discharged", k, nok, len(vc.obls))
+		unreach := map[string]bool{}
 		for _, c := range vc.covers {
 			if c.Status == "unsat" {
-				fmt.Printf("  VACUOUS(%s)", c.Anchor)
+				unreach[c.Anchor] = true
 			}
+		}
+		for _, c := range vc.covers {
+			if c.Status != "unsat" {
+				continue
+			}
+			if strings.HasPrefix(c.Anchor, "before:") {
+				continue
+			}
+			if strings.HasPrefix(c.Anchor, "after:") {
+				if !unreach["before:"+strings.TrimPrefix(c.Anchor, "after:")] {
+					fmt.Printf("  VACUOUS-AFTER-CALL(%s)", strings.TrimPrefix(c.Anchor, "after:"))
+				}
+				continue
+			}
+			fmt.Printf("  VACUOUS(%s)", c.Anchor)
 		}
 		fmt.Println()
 		for _, s := range vc.specErrors {
